@@ -59,6 +59,36 @@ def pkDecode (pk : Bytes) : Option (Scheme × Bytes) :=
   else if pk.length == 48 then some (.bls, pk)
   else some (.multi, pk)
 
+/-- a serialized `crypto.MultiPublicKey` (public_keys = 1 repeated bytes, bitmap = 2, threshold = 3):
+the signer bitmap has one bit per key, padded to whole bytes; the padding bits are zero. They are
+outside the signed bytes, the address (keys + threshold) and the aggregation, so each pattern of them
+would be another byte string for the same key and signature. -/
+def multiKeyShape (pk : Bytes) : Option (Nat × Bytes) :=
+  match parse pk with
+  | none => none
+  | some fs =>
+    let n := (fs.filter fun f => f.num == 1 && (match f.val with | .len _ => true | _ => false)).length
+    let bitmap : Bytes := fs.foldl (fun acc f => match f.num, f.val with
+      | 2, .len b => b
+      | _, _ => acc) []
+    some (n, bitmap)
+
+/-- `sign.Mask.SetMask`: the bitmap has exactly ⌈n/8⌉ bytes (enforced by the code as it stands) -/
+def multiLenOk (pk : Bytes) : Bool :=
+  match multiKeyShape pk with
+  | some (n, bitmap) => n != 0 && bitmap.length == (n + 7) / 8
+  | none => false
+
+/-- … and its padding bits are zero (the repaired parser) -/
+def multiPadOk (pk : Bytes) : Bool :=
+  match multiKeyShape pk with
+  | some (n, bitmap) =>
+    bitmap.length == (n + 7) / 8 &&
+      (n % 8 == 0 || (match bitmap.getLast? with
+        | some last => last.toNat >>> (n % 8) == 0
+        | none => false))
+  | none => false
+
 /-- the public key is in the encoding `PublicKeyI.Bytes()` produces -/
 def pkCanonical (pk : Bytes) : Bool :=
   match pkDecode pk with
@@ -102,6 +132,7 @@ structure Chain where
   legacyRlpDisabled : Bool
   strictTx : Bool            -- repaired code: bytes must be the canonical marshalling
   strictKey : Bool           -- repaired code: public key must be in canonical encoding
+  strictPad : Bool := false  -- repaired code: padding bits of a multi-signature key's bitmap must be zero
   vesting : List (Bytes × Nat × Nat × Nat) := []   -- terms of the vesting tranche an account received (start, cliff, end)
   index : List Bytes          -- hashes under which included transactions can be looked up
   accounts : List Account
@@ -223,10 +254,13 @@ def checkReplay (e : Env) (c : Chain) (withHash : Bool) (raw : Bytes) (t : TxCon
 
 /-! ## `StateMachine.CheckSignature` -/
 
-def checkSignature (e : Env) (strict : Bool) (t : TxContent) (g : SigC) (authorized : Bytes) : Except Rej Bytes :=
+def checkSignature (e : Env) (strict : Bool) (pad : Bool) (t : TxContent) (g : SigC) (authorized : Bytes) : Except Rej Bytes :=
   match pkDecode g.publicKey with
   | none => .error .sig
   | some (sch, k) =>
+    -- `NewMultiBLSFromPublicKey` (repaired): a multi-signature key with raised padding bits does not parse
+    if sch == .multi && !multiLenOk g.publicKey then .error .sig else
+    if pad && sch == .multi && !multiPadOk g.publicKey then .error .sig else
     -- the repaired code: the key bytes are what `PublicKeyI.Bytes()` returns for the parsed key
     if strict && k != g.publicKey then .error .sig else
     let hasEth := sch == .eth
@@ -274,7 +308,7 @@ def checkTx (e : Env) (c : Chain) (withHash : Bool) (raw : Bytes) : Except Rej C
         | .error r => .error r
         | .ok s =>
           if t.fee < c.minFee then .error .fee
-          else match checkSignature e c.strictKey t g s.fromAddr with
+          else match checkSignature e c.strictKey c.strictPad t g s.fromAddr with
           | .error r => .error r
           | .ok sender =>
             if t.memo == rlpV2Memo && (t.nonce < (c.account sender).nonce || t.nonce == maxUint64) then .error .nonce
